@@ -24,7 +24,7 @@ func runOps(ops string) map[string]string {
 
 // open-without-deadline on the real breaker: timeout 1000 ms, the probe is admitted at the millisecond of the opening.
 func TestOpenWithoutDeadline(t *testing.T) {
-	r := runOps("case a\ncb.new ec 1000 1 1 0 0\nthread 0 c:1:err\nthread 1 tp\nsched 0 0 0 1 1 1\nresults\nlog\nfinal\n")
+	r := runOps("case a\ncb.new ec 1000 1 1 0 0\nthread 0 c:1:err\nthread 1 tp\nsched 0 0 0 1 1 1 1\nresults\nlog\nfinal\n")
 	if r["results"] != "0:[] 1:[t]" || r["final"] != "clk=0 list=0 o0=H,1000,0" {
 		t.Fatalf("finding no longer reproduces: %v", r)
 	}
@@ -34,7 +34,7 @@ func TestOpenWithoutDeadline(t *testing.T) {
 // and wins it at clk=10 although the second opening stored the deadline 20.
 func TestStaleRetryCheck(t *testing.T) {
 	r := runOps("case a\ncb.new ec 10 1 1 0 0\nthread 0 c:1:err\nsched\nsched tick:10\nthread 0 tp\nthread 1 tp c:1:ok c:1:err\n" +
-		"sched 0 0 1 1 1 1 1 1 1 1 1 1 1 1 1 0\nresults\nlog\nfinal\n")
+		"sched 0 0 0 1 1 1 1 1 1 1 1 1 1 1 1 1 0\nresults\nlog\nfinal\n")
 	if r["results"] != "0:[t] 1:[t]" || r["final"] != "clk=10 list=0 o0=H,20,0" ||
 		r["log"] != "[C>O@0,O>H@1,H>C@1,C>O@1,O>H@0]" {
 		t.Fatalf("finding no longer reproduces: %v", r)
@@ -75,7 +75,7 @@ func TestReloadOfResourceWhileRequestsArrive(t *testing.T) {
 // probed (scenario of seeded change C12-r6-2).
 func TestTwoProbesAlive(t *testing.T) {
 	r := runOps("case a\ncb.new ec 10 1 1 0 0\nrule 1 10 1 1 2 0\nthread 0 rl:1,0\nsched\nthread 0 c:1:err\nsched\nsched tick:10\n" +
-		"thread 0 tp\nthread 1 tp\nsched 0 0 0 1 1 1 1 0 0\nresults\nlog\nfinal\n")
+		"thread 0 tp\nthread 1 tp\nsched 0 0 0 0 1 1 1 1 1 0 0\nresults\nlog\nfinal\n")
 	if r["results"] != "0:[f] 1:[t]" || r["log"] != "[C>O@0,C>O@0,O>H@0,O>H@1,H>O@0]" || r["final"] != "clk=10 list=1.2 o0=C,-,0 o1=O,10,0 o2=H,10,0" {
 		t.Fatalf("unexpected: %v", r)
 	}
@@ -85,6 +85,17 @@ func TestTwoProbesAlive(t *testing.T) {
 func TestProbeWithoutEntry(t *testing.T) {
 	r := runOps("case a\ncb.new ec 10 1 1 0 0\nthread 0 c:1:err\nsched\nsched tick:10\nthread 0 tpn\nsched\nresults\nlog\nfinal\n")
 	if r["results"] != "0:[t]" || r["log"] != "[C>O@0,O>H@0]" || r["final"] != "clk=10 list=0 o0=H,10,0" {
+		t.Fatalf("unexpected: %v", r)
+	}
+}
+
+// A TryPass that read the clock before another thread's probe failed and re-opened the breaker compares that OLD reading
+// with the NEW deadline and is rejected (scenario of seeded change C12-r7-1); the harness clock yields between the clock
+// read and the deadline load of the retry check.
+func TestClockReadBeforeReopen(t *testing.T) {
+	r := runOps("case a\ncb.new ec 1000 1 1 0 0\nthread 0 c:1:err\nsched\nsched tick:1000\nthread 0 tp\nthread 1 tp c:1:err\n" +
+		"sched 0 0 1 1 1 1 tick:5 1 1 1 1 0 0\nresults\nlog\nfinal\n")
+	if r["results"] != "0:[f] 1:[t]" || r["final"] != "clk=1005 list=0 o0=O,2005,0" {
 		t.Fatalf("unexpected: %v", r)
 	}
 }
